@@ -15,6 +15,7 @@ import IndicatifModel.Model.Adaptors
 import IndicatifModel.Model.IterWrap
 import IndicatifModel.Model.Estimator
 import IndicatifModel.Model.Render
+import IndicatifModel.Model.KeyValue
 /-! Line-protocol driver: one case per input line, one model observation per output line. -/
 open IndicatifModel
 
@@ -512,6 +513,40 @@ def runRENDER (toks : List String) : String :=
     | _, _, _, _, _, _, _, _, _, _ => "bad-op"
   | _ => "bad-op"
 
+/-- `RENDERK W tab tpl=<cps> pos=<n> len=<n|none> elapsed=<ns> eta=<ns> duration=<ns> persec=<f64 bits> msg=<cps> prefix=<cps>
+tick=<cps> chars=<cps;cps;…> cwid=<n> cw=<cp:w,…>` → the lines of a frame, every documented key rendered from the getter
+values through the *documented* arm table (`Model/KeyDoc.lean`) -/
+def runRENDERK (toks : List String) : String :=
+  let kv (k : String) : Option String := (toks.find? (fun t => t.startsWith (k ++ "="))).map (fun t => (t.drop (k.length + 1)).toString)
+  let cpsOf (v : String) : List Nat := if v = "-" then [] else (v.splitOn ",").filterMap String.toNat?
+  let chars (v : String) : List Char := (cpsOf v).map Char.ofNat
+  let nat (k : String) : Option Nat := (kv k).bind String.toNat?
+  match toks with
+  | w :: tab :: _ =>
+    match w.toNat?, tab.toNat?, kv "tpl", nat "pos", kv "len", nat "elapsed", nat "eta", nat "duration", nat "persec" with
+    | some W, some tabw, some tpl, some pos, some lenS, some elapsed, some eta, some duration, some persec =>
+      match kv "msg", kv "prefix", kv "tick", kv "chars", nat "cwid", kv "cw" with
+      | some msg, some pfx, some tick, some pcs, some cwid, some cwv =>
+        let table : List (Nat × Nat) := if cwv = "-" then [] else (cwv.splitOn ",").filterMap (fun t => match t.splitOn ":" with
+          | [a, b] => do some ((← a.toNat?), (← b.toNat?))
+          | _ => none)
+        let cw (cp : Nat) : Nat := match table.find? (fun e => e.1 = cp) with
+          | some e => e.2
+          | none => 1
+        let lenV : Option Nat := if lenS = "none" then none else lenS.toNat?
+        let pchars : List (List Char) := (pcs.splitOn ";").map chars
+        let v : KeyValue.Vals := KeyValue.Vals.mk pos lenV elapsed eta duration persec (chars msg) (chars pfx) (chars tick) pchars cwid
+        let env := KeyValue.envOf Generated.documentedArms v W tabw cw (fun _ => none)
+        match Template.parse Template.PFix.current (chars tpl) with
+        | .ok parts =>
+          let lines := Render.formatState env parts
+          s!"n={lines.length} " ++ "|".intercalate (lines.map (fun l => if l = [] then "-" else ".".intercalate (l.map (fun x => toString x.cp))))
+        | .err _ _ => "parse-error"
+        | .panic => "parse-panic"
+      | _, _, _, _, _, _ => "bad-op"
+    | _, _, _, _, _, _, _, _, _ => "bad-op"
+  | _ => "bad-op"
+
 def handle (line : String) : String :=
   match line.trimAscii.toString.splitOn " " with
   | "C05" :: rest => runC05 rest
@@ -520,6 +555,7 @@ def handle (line : String) : String :=
   | "EST" :: _ => runEstimator ((line.trimAscii.toString.drop 3).toString)
   | "PAD" :: rest => runPAD rest
   | "RENDER" :: rest => runRENDER rest
+  | "RENDERK" :: rest => runRENDERK rest
   | "ADAPT" :: _ => runADAPT ((line.trimAscii.toString.drop 6).toString)
   | "NOMODEL" :: _ => ""
   | "BARGEO" :: rest => runBARGEO rest
